@@ -153,6 +153,16 @@ impl ContextData {
 
 }
 
+#[cfg(feature = "verif")]
+impl ContextData {
+    /// The RNS tool of this level (crate-private accessor exposed for verification).
+    pub fn verif_rns_tool(&self) -> &RNSTool { self.rns_tool() }
+    /// The Galois tool of this level (crate-private accessor exposed for verification).
+    pub fn verif_galois_tool(&self) -> &GaloisTool { self.galois_tool() }
+    /// q mod t in RNS form (BFV/BGV), exposed for verification.
+    pub fn verif_upper_half_increment(&self) -> &Vec<u64> { &self.upper_half_increment }
+}
+
 type ContextDataPointer = Arc<ContextData>;
 
 /// Stores a chain of [ContextData] used for a set of [EncryptionParameters].
